@@ -154,6 +154,12 @@ func (g *gen) genRun(thorough bool, dstZones []string) *run {
 	x.Desc = g.rng.Intn(100) < 70
 	x.Fields = [][]term{}
 	r.Mode = []string{"aimed", "aimed", "dense", "random"}[g.rng.Intn(4)]
+	if g.rng.Intn(100) < 6 {
+		// rare or impossible dates: the answer is years away, or the zero time
+		r.Mode = "sparse"
+		h.vals[4] = []int{29, 30, 31, 31}
+		h.vals[5] = []int{2, 2, 2, 4, 6, 9, 11}
+	}
 	switch q := g.rng.Intn(100); {
 	case q < 7 && x.Desc:
 		x.Form, x.Name = "desc", knownDesc[g.rng.Intn(len(knownDesc))]
@@ -335,7 +341,7 @@ func givenField(x *expr, f int) []term {
 	return nil
 }
 
-var reNum = regexp.MustCompile(`(?:match|expected) (-?\d+)`)
+var reNum = regexp.MustCompile(`(?:match|expected|although) (-?\d+)`)
 
 // findingKey reduces a rejected run to a stable key naming the failing input class.
 func findingKey(r *run, at int, why string) string {
@@ -352,15 +358,14 @@ func findingKey(r *run, at int, why string) string {
 	case strings.HasPrefix(why, "parse: panic"):
 		return "parse-panic:" + x.Form
 	case strings.HasPrefix(why, "parse: accepted although "):
-		return "accepted-malformed:" + slug(strings.TrimPrefix(why, "parse: accepted although "))
+		return "accepted-malformed:" + slug(strings.ReplaceAll(strings.TrimPrefix(why, "parse: accepted although "), ": ", ":"))
 	case strings.HasPrefix(why, "parse: well-formed expression refused"):
 		if x.Form != "fields" {
 			return "refused-wellformed:" + x.Form + ":" + slug(x.Name)
 		}
 		for i := range x.Fields { // isolate the field the parser chokes on
 			f := fieldAt(x, i)
-			e := enumTerm{F: f}
-			probe := termRun(e)
+			probe := termRun(enumTerm{F: f, T: term{K: "star", A: noAtom, B: noAtom, S: noAtom}})
 			probe.X.Fields[f-1] = x.Fields[i]
 			if _, o := safeParse(&probe.X, probe.X.text()); o.Kind != "spec" {
 				return "refused-wellformed:" + fieldNames[f] + ":" + kindsOf(x.Fields[i])
@@ -420,7 +425,7 @@ func findingKey(r *run, at int, why string) string {
 		}
 	}
 	if e.Hang {
-		to = e.T + e2000 + 40*86400
+		to = e.T + e2000 + 1830*86400 // the search that never ended could have been anywhere in its five years
 	}
 	var near []transition
 	for _, tr := range transitionsOf(r.ZT) {
@@ -652,7 +657,7 @@ func TestCheck(t *testing.T) {
 		return
 	}
 	e.Set("traces_validated_against_impl", int64(len(all)))
-	e.Set("evaluations", int64(nextCalls+len(all)))
+	e.Set("evaluations", int64(nextCalls+len(runs)+len(termRuns)))
 	e.Set("rule", "a run = one expression (AST drawn from the field grammar: every term form for every field, lists <= 3, names, ?, descriptors, @every; or one planted defect of each refusal class) x parser option set x TZ=/CRON_TZ= prefix or process-local zone x zone (fixed, whole-hour DST both hemispheres, midnight transitions, 30/45-minute offsets, 30-minute DST, skipped day) x start instant (within 3 h of a transition 2010-2035, calendar corners, random) carried in another Location, walked 1-20 Next steps; plus every single term of every field enumerated by TLC; each Parse and each Next call is one evaluation judged by TLC; non-trivial = a run with at least one Next call, or an enumerated term; distinct by expression text, zone and start instant")
 	rejected := map[*run]bool{}
 	calendarMismatch := 0
@@ -717,11 +722,13 @@ func TestCheck(t *testing.T) {
 	}
 	e.Set("states", mc.Distinct+enum.Distinct)
 	e.Set("transitions", mc.Generated+enum.Generated)
+	e.Set("states_oracle_vs_definition", mc.Distinct)
+	e.Set("states_term_enumeration", enum.Distinct)
 	e.Set("checker_cmd", mc.Cmd)
 	e.Set("mc_defect_variant_rejected", mcDefect.Violation)
 	e.Assume("tzdata is trusted: the zone tables handed to TLC are read from the Go runtime's time.ZoneBounds/Zone (the code under test uses time.Date/Add/In)",
 		"the duration syntax of '@every d' is time.ParseDuration's; the harness hands d (whole seconds) to the spec",
-		"expressions outside the documented grammar (e.g. '*-5', '+5', empty list items, '?' outside the day fields) are not generated; a schedule without TZ= prefix is exercised with start instants carried in the process-local zone (doc.go and the code differ on any other Location)",
+		"expressions outside the documented grammar (e.g. '*-5', '+5', empty list items, '?' outside the day fields) are not generated; a schedule without TZ= prefix is read in the zone of the instant handed to Next (spec.go: 'treated as local to the time provided'; this is how cron.WithLocation takes effect)",
 		"either-day rule: a day field is 'restricted' when it has no star and excludes some value; for a star inside a list, '*/1' or a star-free full range both readings are accepted",
 		"'none within five years': a match within 1825 days must be returned; if the first match is later, it or the zero time is accepted")
 }
